@@ -347,3 +347,50 @@ M('c19-new-shipped-middleware-ws-alias-store', 'C19', 'R2', MW,
 
 
 class CORSMiddleware(object):""")
+
+# ------------------------------------------------------------------ wave 8
+RESP = 'falcon/responders.py'
+MP = 'falcon/media/multipart.py'
+AMP = 'falcon/asgi/multipart.py'
+# R7 (seed s8-c19-1): one pre-built error instance, captured by the closure, raised for every rejected request of the route
+M2('c19-default-405-raises-prebuilt-error', 'C19', 'R7', [
+    {'file': RESP, 'old': "    if asgi:\n\n        async def method_not_allowed_responder_async(",
+     'new': "    error = HTTPMethodNotAllowed(allowed_methods)\n\n    if asgi:\n\n        async def method_not_allowed_responder_async("},
+    {'file': RESP, 'old': "            raise HTTPMethodNotAllowed(allowed_methods)\n\n        return method_not_allowed_responder_async",
+     'new': "            raise error\n\n        return method_not_allowed_responder_async"},
+    {'file': RESP, 'old': "        raise HTTPMethodNotAllowed(allowed_methods)\n\n    return method_not_allowed\n",
+     'new': "        raise error\n\n    return method_not_allowed\n"},
+], also=('C02',))
+# only the ASGI responder shares the instance (the request path with the most interleaving points)
+M2('c19-default-405-async-raises-prebuilt-error', 'C19', 'R7', [
+    {'file': RESP, 'old': "    if asgi:\n\n        async def method_not_allowed_responder_async(",
+     'new': "    if asgi:\n        error = HTTPMethodNotAllowed(allowed_methods)\n\n        async def method_not_allowed_responder_async("},
+    {'file': RESP, 'old': "            raise HTTPMethodNotAllowed(allowed_methods)\n\n        return method_not_allowed_responder_async",
+     'new': "            raise error\n\n        return method_not_allowed_responder_async"},
+], also=('C02',))
+# a module-level singleton 404
+M2('c19-path-not-found-raises-module-singleton', 'C19', 'R7', [
+    {'file': RESP, 'old': "def path_not_found(req: Request, resp: Response, **kwargs: Any) -> NoReturn:\n    \"\"\"Raise 404 HTTPRouteNotFound error.\"\"\"\n    raise HTTPRouteNotFound()\n",
+     'new': "_NOT_FOUND = HTTPRouteNotFound()\n\n\ndef path_not_found(req: Request, resp: Response, **kwargs: Any) -> NoReturn:\n    \"\"\"Raise 404 HTTPRouteNotFound error.\"\"\"\n    raise _NOT_FOUND\n"},
+], also=('C02', 'C04'))
+# R2 (seed s8-c19-2): the per-request parser writes a value of ITS form into the handler-wide options object
+M('c19-multipart-form-stores-charset-in-shared-options', 'C19', 'R2', MP,
+  "            yield BodyPart(stream.delimit(delimiter), headers, self._parse_options)\n",
+  """            part = BodyPart(stream.delimit(delimiter), headers, self._parse_options)
+            if part.name == '_charset_' and part.filename is None:
+                charset = part.get_text()
+                if charset:
+                    self._parse_options.default_charset = charset.strip()
+
+            yield part
+""", also=('C06', 'C13'))
+# the same through a local alias, in the ASGI body part
+M('c19-asgi-body-part-remembers-charset-through-alias', 'C19', 'R2', AMP,
+  "        charset = options.get('charset', self._parse_options.default_charset)\n        try:\n            return (await self.get_data()).decode(charset)\n",
+  "        opts = self._parse_options\n        charset = options.get('charset', opts.default_charset)\n        opts.default_charset = charset\n        try:\n            return (await self.get_data()).decode(charset)\n",
+  also=('C06', 'C13'))
+# a per-request body part registers a handler in the shared media-handler table
+M('c19-body-part-mutates-shared-media-handlers', 'C19', 'R2', MP,
+  "        if self._data is None:\n            max_size = self._parse_options.max_body_part_buffer_size + 1\n",
+  "        if self._data is None:\n            self._parse_options.media_handlers.pop('text/plain', None)\n            max_size = self._parse_options.max_body_part_buffer_size + 1\n",
+  also=('C06', 'C13', 'C11'))
